@@ -9,10 +9,9 @@ META = {
              '256^3 protocol-header version triples are pushed through the real marshal/unmarshal '
              'symbolically; byte-exact expectations come from the independent reference codec.',
     'trusted': 'CrossHair + z3; symrt struct/CBytes models; spec/refcodec.py.',
-    'bounds': {'quick': 'body lengths 1..32 (every length), all contents, all channels; heartbeat on '
-                        'all channels; all version triples',
-               'thorough': 'body lengths 1..48 plus sample lengths 255, 256, 4096, 131064 with symbolic '
-                           'first/last bytes'},
+    'bounds': {'quick': 'body lengths 1..32 (every length), all contents, all channels; sample lengths 255..131072 '
+                        'with concrete content; heartbeat on all channels; all version triples',
+               'thorough': 'body lengths 1..48 plus the same sample lengths'},
     'outside': 'body lengths between the listed ones up to 131072 (content never influences control '
                'flow: the path count is 1 per length)',
     'cuts': [],
@@ -79,13 +78,25 @@ def partitions(tier, seed):
             body=BODY_RT % {'n': n}, prelude=common.PRELUDE, timeout=90, family='body_rt',
             bound='all contents of length %d, all channels' % n,
             rep={'ch': 65535, 'content': {'__bytes__': (b'\xceAMQP\x01\x00\x01' * 8)[:n].hex()}}))
-    for n in ((255, 256) if tier == 'quick' else (255, 256, 4096, 131064)):
-        parts.append(Part(
-            name='body_big%d' % n, params=[('ch', 'int'), ('a', 'int'), ('b', 'int'), ('z', 'int')],
-            pre=['0 <= ch <= 65535', '0 <= a <= 255', '0 <= b <= 255', '0 <= z <= 255'],
-            body=BODY_BIG % {'n': n}, prelude=common.PRELUDE, timeout=300, family='body_rt',
-            bound='length %d, first two and last byte symbolic, rest 0x41' % n,
-            rep={'ch': 1, 'a': 0xCE, 'b': 65, 'z': 0xCE}))
+    # sample lengths up to the maximum frame size: concrete content (first byte 0xCE, last byte 'A'),
+    # symbolic channel; the harness avoids per-byte Python work so that 131072-byte bodies stay cheap
+    parts.append(Part(
+        name='body_large', params=[('ch', 'int')], pre=['0 <= ch <= 65535'],
+        body='def body(ch):\n'
+             '    ok = True\n'
+             '    for n in (255, 256, 4096, 65535, 65536, 131064, 131065, 131071, 131072):\n'
+             '        content = b"\\xce" + bytes(n - 2) + b"A"\n'
+             '        cb = _body.ContentBody(content)\n'
+             '        data = frame.marshal(cb, ch)\n'
+             '        t, pc, sz = frame.frame_parts(data)\n'
+             '        k, chan, f = frame.unmarshal(data)\n'
+             '        ok = ok and len(cb) == n and k == n + 8 and len(data) == n + 8 and chan == ch and pc == ch\n'
+             '        ok = ok and t == 3 and sz == n and type(f) is _body.ContentBody and len(f) == n\n'
+             '        ok = ok and f.value == content and data[n + 7] == 0xCE\n'
+             '    return ok\n',
+        prelude=common.PRELUDE, timeout=200, family='body_rt',
+        bound='body lengths 255, 256, 4096, 65535, 65536, 131064, 131065, 131071, 131072 with concrete '
+              'content, every channel', rep={'ch': 65535}))
     parts.append(Part(name='heartbeat', params=[('ch', 'int')], pre=['0 <= ch <= 65535'],
                       body=HEARTBEAT, prelude=common.PRELUDE, timeout=60, family='heartbeat',
                       bound='all channels', rep={'ch': 513}))
